@@ -198,6 +198,9 @@ def formulas (N : Nat) (name : String) (ns : List Nat) (fs : List Î±) (x : Nat â
   | "StochasticRsi" =>
     let r := rsi N (n 0) i0
     some [(r - mmin (n 0) r) / (mmax (n 0) r - mmin (n 0) r)]
+  | "StochasticRsiG" =>
+    let r := rsi N (n 0) i0
+    some [(r - mmin (n 1) r) / (mmax (n 1) r - mmin (n 1) r)]
   | "WilliamsR" =>
     some [scale (Arith.neg hundred) ((mmax (n 0) i0 - i2) / (mmax (n 0) i0 - mmin (n 0) i1))]
   -- volatility
@@ -216,6 +219,10 @@ def formulas (N : Nat) (name : String) (ns : List Nat) (fs : List Î±) (x : Nat â
   | "KeltnerChannel" =>
     let a := scale two (atr N (.sma (n 0)) i0 i1 i2)
     let m := ema N (n 0) two i2
+    some [m + a, from_ a.start m, m - a]
+  | "KeltnerChannelG" =>
+    let a := scale two (atr N (maOf (n 0) (n 1)) i0 i1 i2)
+    let m := ema N (n 2) two i2
     some [m + a, from_ a.start m, m - a]
   | "MovingStd" => some [mstd (n 0) i0]
   | "PercentB" => some [(i0 - bbLower (n 0) i0) / (bbUpper (n 0) i0 - bbLower (n 0) i0)]
